@@ -12,6 +12,14 @@ use std::collections::BTreeMap;
 pub struct Twin;
 
 /// the transcript hash of one execution of `seed` (also used by `dst twinhash` in a child process)
+/// the explicit history behind a seed, for evidence samples
+pub fn case_of(profile: &str, seed: u64) -> serde_json::Value {
+    match profile {
+        "save" => serde_json::to_value(crate::savesim::gen_case(seed)).unwrap(),
+        _ => serde_json::to_value(crate::wrun::generate_and_run("single", seed).0).unwrap(),
+    }
+}
+
 pub fn transcript(profile: &str, seed: u64) -> (u64, Option<Viol>, BTreeMap<String, u64>) {
     match profile {
         "save" => {
@@ -47,7 +55,7 @@ pub fn transcript(profile: &str, seed: u64) -> (u64, Option<Viol>, BTreeMap<Stri
     }
 }
 
-fn twin(profile: &str, seed: u64) -> Report {
+fn twin(profile: &str, seed: u64, want_case: bool) -> Report {
     let (t1, v1, mut counters) = transcript(profile, seed);
     // unrelated heap traffic: shifts addresses and advances per-instance hasher keys
     let mut r = Rng::new(mix(&[seed, 0x7717]));
@@ -84,7 +92,7 @@ fn twin(profile: &str, seed: u64) -> Report {
     };
     Report {
         violation,
-        case: None,
+        case: if want_case { Some(serde_json::json!({"history": case_of(profile, seed), "transcript_hash": t1})) } else { None },
         trace_hash: t1,
         counters,
         sets: BTreeMap::new(),
@@ -97,8 +105,8 @@ impl Engine for Twin {
     fn name(&self) -> &'static str {
         "twin"
     }
-    fn run_seed(&self, profile: &str, seed: u64, _prop: &str, _want_case: bool) -> Report {
-        twin(profile, seed)
+    fn run_seed(&self, profile: &str, seed: u64, _prop: &str, want_case: bool) -> Report {
+        twin(profile, seed, want_case)
     }
     fn replay(&self, _case: &serde_json::Value, _prop: &str) -> Report {
         Report::default()
